@@ -455,12 +455,21 @@ def ape_cli(run, case, rng, work):
         unit = ["mm", "cm", "m", "km", "deg", "rad"][rng.integers(6)]
         argv += ["--change_unit", unit]
     argv += ["--save_results", "out.zip", "--no_warnings"]
-    dict.__setitem__(settings.SETTINGS, "save_traj_in_zip", True)
-    try:
-        res = cli.run_cli("ape", argv, cwd=work)
-    finally:
-        dict.__setitem__(settings.SETTINGS, "save_traj_in_zip", False)
-    got = outcome_class(res)
+    if case.get("exe"):
+        # the real executable in a fresh interpreter; the package setting is overridden through -c
+        open(os.path.join(work, "cfg.json"), "w").write(json.dumps({"save_traj_in_zip": True}))
+        pr = cli.run_subprocess("ape", argv + ["-c", "cfg.json"], work, os.environ["HOME"])
+        res = cli.CliResult()
+        res.exit = pr.returncode
+        got = None if pr.returncode == 0 else "exit %d" % pr.returncode
+        run.hit("L3 runs through the real executable")
+    else:
+        dict.__setitem__(settings.SETTINGS, "save_traj_in_zip", True)
+        try:
+            res = cli.run_cli("ape", argv, cwd=work)
+        finally:
+            dict.__setitem__(settings.SETTINGS, "save_traj_in_zip", False)
+        got = outcome_class(res)
     run.seen(case, core.digest(open(fp["ref_path"]).read(), open(fp["est_path"]).read(), argv),
              cls=["L3 fmt:" + fmt, "L3 relation:" + rel_cli] +
              ["opt:" + k for k, v in o.items() if v and v != -1 and k not in ("t_max_diff", )] +
@@ -476,6 +485,8 @@ def ape_cli(run, case, rng, work):
         run.hit("L3 ambiguous (not judged): " + str(a))
         return None
     except pipeline.Refuse as r:
+        if case.get("exe"):
+            got = r.kind if got == "exit 1" else got  # the entry point maps known exceptions to exit 1
         run.check(got == r.kind, "evo_ape refuses what the documentation refuses", case,
                   "expected %s (%s) but evo_ape gave %s" % (r.kind, r, got or "a result"),
                   key="cli:refusal-mismatch", argv=argv)
@@ -546,7 +557,9 @@ def main(run):
         k_cli(run, run.case("cli", i))
     for i in run.mine({"quick": 8, "thorough": 160}[run.tier]):
         k_cli(run, run.case("cli", 10**6 + i, real=True))
-    run.need("APE value == definition applied to its own pose pair", "APE: unequal lengths refused",
+    for i in run.mine({"quick": 6, "thorough": 60}[run.tier]):
+        k_cli(run, run.case("cli", 2 * 10**6 + i, exe=True))
+    run.need("L3 runs through the real executable","APE value == definition applied to its own pose pair", "APE: unequal lengths refused",
              "APE unchanged when ref/est swapped", "APE unchanged under a common rigid motion",
              "APE zero when trajectories coincide", "APE: exactly one value per pose",
              "evo_ape values == definition on the surviving processed pairs",
